@@ -7,6 +7,7 @@ import DirectVerif.Lemmas.C08PrePost
 import DirectVerif.Lemmas.C08Err
 import DirectVerif.Lemmas.C08Given
 import DirectVerif.Lemmas.C08Ext
+import DirectVerif.Lemmas.C08Recon
 /-!
 # C08 — the training transform pipeline is scale-equivariant and self-consistent
 
@@ -429,6 +430,22 @@ theorem prepost_consistent {sqrt : K → K} (X : Ext K) (m : Meta) (cfg : Config
   obtain ⟨kfull, mask, sf, a1, a2, a3, a4, a5⟩ := prepost_final (fieldOps sqrt) X m cfg hv x out h
   refine ⟨kfull, mask, sf, a1, a2, ?_, a4, a5⟩
   rw [a3, safeDiv_applyMask_comm]
+
+/-- **`prepost_target_is_recon_of_normalised`** — although the pre/post pair reconstructs *before* it normalises, its
+target is the reconstruction of the normalised fully sampled k-space, as the property demands: for a positive scalar
+scaling factor `s`, `ComputeImage(kfull) / s = ComputeImage(kfull / s)` for all six reconstruction types (homogeneity of
+`ComputeImage`, `reconVal_scale`, with the sensitivity map of the output sample). -/
+theorem prepost_target_is_recon_of_normalised {sqrt : K → K} (hs : SqrtHom sqrt) {X : Ext K} (hX : ExtHom X) (m : Meta)
+    (cfg : Config) (hv : cfg.validPP = true) (x : Val K) (out : Store K)
+    (h : run (fieldOps sqrt) X m (buildPrePost cfg) x = .ok out) :
+    ∃ kfull sf, out .scalingFactor = some sf ∧
+      ∀ s, sf.data = [s] → 0 < s →
+        out .target = some (reconVal (fieldOps sqrt) X m cfg.recon (evalOp (fieldOps sqrt) X m .safeDiv [sf, kfull])
+                              ((out .sensitivityMap).getD Val.empty)) := by
+  obtain ⟨kfull, mask, sf, _, a2, _, a4, _⟩ := prepost_final (fieldOps sqrt) X m cfg hv x out h
+  refine ⟨kfull, sf, a2, ?_⟩
+  intro s hsf hpos
+  rw [a4, recon_normalise_comm hs hX m cfg.recon sf kfull _ s hsf hpos]
 
 /-- moving `ComputeImage` behind `Normalize`'s key list (dropping `target` from the default keys) is rejected -/
 theorem post_target_not_normalised_rejected :
